@@ -217,7 +217,7 @@ func cancelHandle(c map[string]J) map[string]J {
 	var res result
 	select {
 	case res = <-done:
-	case <-time.After(3 * time.Second):
+	case <-time.After(wd(3 * time.Second)):
 		// the worker is abandoned: its goroutine is still running the query
 		atomic.StoreInt32(&active, 0)
 		return map[string]J{"status": "mismatch", "input": input, "what": "the pending call did not return within 3s after the cancellation", "expected": "returns ctx.Err() promptly",
@@ -363,7 +363,7 @@ func cancelWallHandle(c map[string]J) map[string]J {
 		if want == nil || !errors.Is(err, want) {
 			return map[string]J{"status": "mismatch", "input": input, "what": "error returned by the pending call", "expected": fmt.Sprint(want), "observed": fmt.Sprint(err)}
 		}
-	case <-time.After(delay + 3*time.Second):
+	case <-time.After(delay + wd(3*time.Second)):
 		return map[string]J{"status": "mismatch", "input": input, "what": "the pending call did not return within 3s after the cancellation", "expected": "prompt return", "observed": "still running"}
 	}
 	sols, err := p.Query("X = after.")
